@@ -363,8 +363,7 @@ func (m *M) SDecodeForm(r int, form string, data []byte) {
 
 // SSetInt puts a canonical integer < n into S[r] by writing its Montgomery form (no decoder involved).
 func (m *M) SSetInt(r int, v *big.Int) {
-	l := montLimbs(v, bigN)
-	copy(m.S[r].S[:], l[:])
+	setScalar(m.S[r], v)
 	m.emit("SSetInt", kv{"r", r + 1}, kv{"v", be32(v)})
 }
 
